@@ -69,11 +69,19 @@ def rca_case(rng):
   return ev
 
 
-def lfda_case(rng):
-  d = int(rng.integers(2, 4))
+def lfda_case(rng, small_class=False):
+  d = int(rng.integers(4, 6)) if small_class else int(rng.integers(2, 4))
   ncls = int(rng.integers(2, 4))
-  X, y = gen.dataset(rng, d=d, n_classes=ncls, per_class=int(rng.integers(4, 6)), bits=3, sep=2.0)
+  # (small_class: the other classes are large enough for a positive definite within-class scatter, n - n_classes >= d + 2)
+  X, y = gen.dataset(rng, d=d, n_classes=ncls, per_class=(d + 4) if small_class else int(rng.integers(4, 6)), bits=3, sep=2.0)
   kparam = int(rng.integers(0, 4))
+  if small_class:
+    # a class with fewer than k + 1 members (its own k is capped at n_c - 1; the other classes keep theirs), in any position
+    kparam = int(rng.integers(3, d))
+    c = int(rng.integers(ncls))
+    drop = np.flatnonzero(y == c)[3:]
+    keep = np.setdiff1d(np.arange(len(y)), drop)
+    X, y = X[keep], y[keep]
   emb = str(rng.choice(['weighted', 'orthonormalized', 'plain']))
   n_comp = None if rng.random() < 0.4 else int(rng.integers(1, d + 1))
   n = len(X)
@@ -138,20 +146,20 @@ def lfda_case(rng):
 
 def gen_trace(recipe):
   rng = np.random.default_rng(recipe['seed'])
-  f = {'cov': cov_case, 'rca': rca_case, 'lfda': lfda_case}[recipe['kind']]
+  f = {'cov': cov_case, 'rca': rca_case, 'lfda': lfda_case, 'lfda_small': lambda r: lfda_case(r, True)}[recipe['kind']]
   return {'est': recipe['kind'], 'events': [f(rng) for _ in range(recipe['n'])]}
 
 
 def signature_of(recipe, tr, clause, pos):
   e = tr['events'][pos - 1] if 0 < pos <= len(tr['events']) else {}
-  return {'learner': recipe['kind'], 'embedding': e.get('embedding', ''), 'reduced': bool(e.get('n_components'))}
+  return {'learner': recipe['kind'].split('_')[0], 'embedding': e.get('embedding', ''), 'reduced': bool(e.get('n_components'))}
 
 
 def run(ctx):
   ctx.model('MC_Geometry', 'MC_Geometry.cfg')
   rng = np.random.default_rng(ctx.seed + 9)
   rs = []
-  for kind, n, per in (('cov', 2, 15), ('rca', 3, 10), ('lfda', 6, 5)) if ctx.quick else (('cov', 10, 30), ('rca', 16, 20), ('lfda', 32, 10)):
+  for kind, n, per in (('cov', 2, 15), ('rca', 3, 10), ('lfda', 6, 5), ('lfda_small', 3, 4)) if ctx.quick else (('cov', 10, 30), ('rca', 16, 20), ('lfda', 32, 10), ('lfda_small', 16, 10)):
     for i in range(n):
       rs.append(dict(kind=kind, n=per, seed=int(rng.integers(1 << 30))))
   ctx.rule = ('random layouts: Covariance (d 1..5, full-rank / exactly singular covariance, duplicated samples), RCA (unbalanced '
